@@ -416,3 +416,559 @@ def compress_ris_safe(phex):
 
 
 RIS_B = "e2f2ae0a6abc4e71a884a961c500515f58e30b6aa582dd8db6a65945e08d2d76"
+
+
+# ------------------------------------------------------------------ C06 Ristretto
+
+def ris_pool(r, n):
+    out = [("id", ris_encode(ZERO)), ("B", ris_encode(B))]
+    for i in range(n):
+        k = r.below(L) if i % 2 else 1 + r.below(16)
+        out.append(("kB", ris_encode(smul(k, B))))
+    return out
+
+
+def ris_seq_prog(r, pool, n_ops):
+    ins = []
+    k = 1 + r.below(3)
+    for i in range(k):
+        c = r.below(8)
+        if c == 0:
+            ins.append("I")
+        elif c == 1:
+            ins.append("G")
+        elif c == 2:
+            ins.append("H" + r.bytes(64).hex())
+        else:
+            ins.append("D" + r.choice(pool)[1].hex())
+    pts = list(range(len(ins)))
+    for _ in range(n_ops):
+        c = r.below(10)
+        i, j = r.choice(pts), r.choice(pts)
+        if c <= 2:
+            ins.append("A%d,%d" % (i, j))
+        elif c <= 3:
+            ins.append("S%d,%d" % (i, j))
+        elif c == 4:
+            ins.append("N%d" % i)
+        elif c == 5:
+            ins.append("M%d,%s" % (i, H(r.choice([0, 1, 2, L - 1, r.below(L)]))))
+        elif c == 6:
+            ins.append("U" + ",".join(str(r.choice(pts)) for _ in range(r.below(4))))
+        else:
+            ins.append("Q%d,%d" % (i, r.below(4)))
+        pts.append(len(ins) - 1)
+    last = pts[-1]
+    ins.append("E%d,%d" % (last, r.choice(pts)))
+    ins.append("Z%d" % last)
+    # torsion invariance: P vs P+T4 compare equal
+    ins.append("Q%d,%d" % (last, 1 + r.below(3)))
+    ins.append("E%d,%d" % (last, len(ins) - 1))
+    return ";".join(ins)
+
+
+def ris_bad_encodings(r, n):
+    """one generator per rejection class"""
+    out = []
+    # non-canonical field element (s >= p)
+    for s in (P, P + 2, M255 - 1 if False else P + 18):
+        out.append(("ris.bad:noncanon", tole(s & M255)))
+    out.append(("ris.bad:bit255", tole((1 << 255) | 2)))
+    out.append(("ris.bad:bit255_B", bytes(a | (0x80 if i == 31 else 0) for i, a in enumerate(ris_encode(B)))))
+    # negative s
+    for _ in range(n):
+        s = r.below(P) | 1
+        out.append(("ris.bad:negative_s", tole(s)))
+    # non-square / negative t / y = 0: rejection sampling over even s
+    cnt = {"nonsq": 0, "other": 0}
+    tries = 0
+    while (cnt["nonsq"] < n or cnt["other"] < n) and tries < 40 * n + 200:
+        tries += 1
+        s = r.below(P) & ~1
+        if ris_decode(tole(s)) is None:
+            ss = s * s % P
+            u1 = (1 - ss) % P; u2 = (1 + ss) % P; u2s = u2 * u2 % P
+            v = (-(D * u1 % P * u1) - u2s) % P
+            ok, _ = sqrt_ratio_m1(1, v * u2s % P)
+            key = "nonsq" if not ok else "other"
+            if cnt[key] < n:
+                cnt[key] += 1
+                out.append(("ris.bad:" + ("nonsquare" if not ok else "neg_t_or_y0"), tole(s)))
+    out.append(("ris.bad:s=1(y=0)", tole(1)))
+    out.append(("ris.bad:s=p-1", tole(P - 1)))
+    return out
+
+
+def req_C06(r, tier):
+    out = []
+    pool = ris_pool(r, sz(tier, 20, 200))
+    for lab, b in pool:
+        out.append(("ris.decompress:" + lab, "ris.decompress " + b.hex()))
+    for lab, b in ris_bad_encodings(r, sz(tier, 12, 150)):
+        out.append((lab, "ris.decompress " + b.hex()))
+    for i in range(sz(tier, 150, 3000)):
+        out.append(("ris.decompress:rand", "ris.decompress " + r.bytes(32).hex()))
+        s = r.below(P) & ~1
+        out.append(("ris.decompress:rand_even", "ris.decompress " + tole(s).hex()))
+    for i in range(sz(tier, 60, 1500)):
+        out.append(("ris.from_uniform", "ris.from_uniform " + r.bytes(64).hex()))
+        out.append(("ris.elligator", "ris.elligator " + H(r.choice(fe_pool(r, 0))[1] if i % 4 == 0 else r.below(1 << 256))))
+        m = r.bytes(r.below(100))
+        out.append(("ris.from_hash", "ris.from_hash " + hx(m)))
+    for v in (0, 1, P - 1, P, SQRT_M1, (1 << 255) - 1, (1 << 256) - 1):
+        out.append(("ris.elligator:edge", "ris.elligator " + H(v)))
+        out.append(("ris.from_uniform:edge", "ris.from_uniform " + H(v) + H(v)))
+    for i in range(sz(tier, 60, 1000)):
+        n = r.choice([1, 2, 4, 10, sz(tier, 20, 100)])
+        out.append(("ris.seq:len%d" % n, "ris.seq " + ris_seq_prog(r, pool, n)))
+    for n in (0, 1, 2, 3, 8, 17, sz(tier, 33, 64)):
+        ps = [r.choice(pool)[1].hex() for _ in range(n)]
+        out.append(("ris.double_compress_batch:n=%d" % n, "ris.double_compress_batch " + lst(ps)))
+        ss = [H(r.below(L)) for _ in range(n)]
+        out.append(("ris.msm_ct:n=%d" % n, "ris.msm_ct %s %s" % (lst(ss), lst(ps))))
+        out.append(("ris.msm_vt:n=%d" % n, "ris.msm_vt %s %s" % (lst(ss), lst(ps))))
+        out.append(("ris.msm_opt:n=%d" % n, "ris.msm_opt %s %s" % (lst(ss), lst(ps))))
+    # identity in batch (documented: batch double-and-compress of identity)
+    out.append(("ris.double_compress_batch:id", "ris.double_compress_batch " + lst([ris_encode(ZERO).hex(), ris_encode(B).hex(), ris_encode(ZERO).hex()])))
+    for i in range(sz(tier, 20, 300)):
+        s = r.choice(sc_pool(r, 0))[1]
+        out.append(("ris.mul_base", "ris.mul_base " + H(s)))
+        out.append(("ris.table", "ris.table " + H(s)))
+        out.append(("ris.double_base", "ris.double_base %s %s %s" % (H(r.below(L)), r.choice(pool)[1].hex(), H(s))))
+    for n in range(0, 70, 1 if tier != QUICK else 7):
+        out.append(("ris.from_slice:len%d" % n, "ris.from_slice " + hx(r.bytes(n))))
+    out.append(("ris.from_slice:len32", "ris.from_slice " + hx(r.bytes(32))))
+    return out
+
+
+# ------------------------------------------------------------------ C07 X25519 / Montgomery
+
+def low_order_u():
+    return [0, 1, 325606250916557431795983626356110631294008115727848805560023387167927233504,
+            39382357235489614581723060781553021112529911719440698176882885853963445705823,
+            P - 1, P, P + 1]
+
+
+def req_C07(r, tier):
+    out = []
+    us = [("lo%d" % i, u) for i, u in enumerate(low_order_u())] + [("9", 9), ("2^255-1", M255), ("2^256-1", (1 << 256) - 1), ("2^255+9", (1 << 255) + 9),
+                                                               ("p+9", P + 9), ("2", 2), ("twist2", 2)]
+    for i in range(sz(tier, 30, 500)):
+        us.append(("rand", r.below(1 << 256)))
+    ks = [("0", 0), ("1", 1), ("8", 8), ("ff", (1 << 256) - 1), ("l", L), ("8l", 8 * L % (1 << 256)), ("clamped_l_mult", 0)]
+    for i in range(sz(tier, 20, 300)):
+        ks.append(("rand", r.below(1 << 256)))
+    # RFC 7748 vectors
+    out.append(("x.x25519:rfc1", "x.x25519 a546e36bf0527c9d3b16154b82465edd62144c0ac1fc5a18506a2244ba449ac4 e6db6867583030db3594c1a424b15f7c726624ec26b3353b10a903a6d0ab1c4c"))
+    out.append(("x.x25519:rfc2", "x.x25519 4b66e9d4d1b4673c5ad22691957d6af5c11b6421e0ea01d42ca4169e7918ba0d e5210f12786811d3f4b7959d0538ae2c31dbe7106fc03c3efc4cd549c715a493"))
+    for (lk, k), (lu, u) in cross(r, ks, 0) if False else [(r.choice(ks), r.choice(us)) for _ in range(sz(tier, 150, 3000))]:
+        out.append(("x.x25519:%s,%s" % (lk, lu), "x.x25519 %s %s" % (H(k), H(u))))
+    for lu, u in us:
+        k = r.below(1 << 256)
+        out.append(("x.x25519:u=" + lu, "x.x25519 %s %s" % (H(k), H(u))))
+        out.append(("x.static:u=" + lu, "x.static %s %s" % (H(k), H(u))))
+        out.append(("x.reusable", "x.reusable %s %s" % (H(k), H(u))))
+        out.append(("x.ephemeral", "x.ephemeral %s %s" % (H(k), H(u))))
+        out.append(("mont.mul_clamped", "mont.mul_clamped %s %s" % (H(u), H(k))))
+        out.append(("mont.mul", "mont.mul %s %s" % (H(u), H(k))))
+        out.append(("mont.mul_raw", "mont.mul_raw %s %s" % (H(u), H(k & M255))))
+        out.append(("mont.to_edwards:" + lu, "mont.to_edwards %s %d" % (H(u), r.below(2))))
+        out.append(("mont.to_edwards:" + lu, "mont.to_edwards %s %d" % (H(u), 1)))
+        out.append(("mont.eq", "mont.eq %s %s" % (H(u), H((u + P) % (1 << 256)))))
+        out.append(("mont.eq", "mont.eq %s %s" % (H(u), H(r.choice(us)[1]))))
+        out.append(("mont.hash", "mont.hash " + H(u)))
+        out.append(("x.pubkey_bytes", "x.pubkey_bytes " + H(u)))
+    for lk, k in ks:
+        out.append(("mont.mul_base_clamped", "mont.mul_base_clamped " + H(k)))
+        out.append(("mont.mul_base", "mont.mul_base " + H(k)))
+        out.append(("ed.mul_base_clamped", "ed.mul_base_clamped " + H(k)))
+        out.append(("sc.clamp", "sc.clamp " + H(k)))
+        out.append(("eds.to_scalar_bytes", "eds.to_scalar_bytes " + H(k)))
+        out.append(("eds.to_scalar", "eds.to_scalar " + H(k)))
+        out.append(("eds.keygen", "eds.keygen " + H(k)))
+        # Ed25519 -> X25519 conversion: vk.to_montgomery
+        out.append(("eds.vk_to_montgomery", "eds.vk_to_montgomery " + ed_pub(tole(k)).hex()))
+    pts = point_pool(r, sz(tier, 20, 200))
+    for lab, b in pts:
+        out.append(("ed.to_montgomery:" + lab, "ed.to_montgomery " + b.hex()))
+        q = decompress(b)
+        if q is not None and q[1] != 1:
+            u = to_mont(q)
+            for s in (0, 1):
+                out.append(("mont.to_edwards:from_point", "mont.to_edwards %s %d" % (H(u), s)))
+    for i in range(sz(tier, 30, 500)):
+        out.append(("mont.elligator", "mont.elligator " + H(r.below(1 << 256))))
+        out.append(("ed.nonspec_map", "ed.nonspec_map " + hx(r.bytes(r.below(64)))))
+    for v in (0, 1, P - 1, SQRT_M1, (P - 1) // 2, pow(2, (P - 1) // 2 - 1, P)):
+        out.append(("mont.elligator:edge", "mont.elligator " + H(v)))
+    for i in range(sz(tier, 30, 400)):
+        nb = r.choice([0, 1, 2, 7, 64, 255, 256, 300])
+        bits = bytes(r.below(2) for _ in range(nb))
+        out.append(("mont.mul_bits_be:n=%d" % nb, "mont.mul_bits_be %s %s" % (H(r.choice(us)[1]), hx(bits))))
+    return out
+
+
+# ------------------------------------------------------------------ C08 / C09 Ed25519
+
+def msgs(r, n):
+    out = [b"", b"a", b"abc", bytes(64), bytes(range(256)) * 2]
+    for _ in range(n):
+        out.append(r.bytes(r.below(300)))
+    return out
+
+
+def ctxs(r):
+    return [None, b"", b"a", b"ctx", bytes(255), r.bytes(255), bytes(256), r.bytes(300)]
+
+
+def ctxs_str(c):
+    return "~" if c is None else hx(c)
+
+
+def req_C08(r, tier):
+    out = []
+    seeds = [bytes(32), bytes([255]) * 32, bytes(range(32))] + [r.bytes(32) for _ in range(sz(tier, 10, 150))]
+    for sd in seeds:
+        out.append(("eds.keygen", "eds.keygen " + sd.hex()))
+        out.append(("eds.expand", "eds.expand " + sd.hex()))
+        out.append(("eds.to_scalar_bytes", "eds.to_scalar_bytes " + sd.hex()))
+        pk = ed_pub(sd)
+        out.append(("eds.from_keypair:ok", "eds.from_keypair " + (sd + pk).hex()))
+        bad = bytearray(pk); bad[r.below(32)] ^= 1 << r.below(8)
+        out.append(("eds.from_keypair:flipped", "eds.from_keypair " + (sd + bytes(bad)).hex()))
+        out.append(("eds.from_keypair:other", "eds.from_keypair " + (sd + ed_pub(r.bytes(32))).hex()))
+        for m in msgs(r, sz(tier, 2, 8)):
+            out.append(("eds.sign:len%d" % len(m), "eds.sign %s %s" % (sd.hex(), hx(m))))
+            sig = ed_sign(sd, m)
+            out.append(("eds.verify:honest", "eds.verify %s %s %s" % (pk.hex(), hx(m), sig.hex())))
+            out.append(("eds.verify_strict:honest", "eds.verify_strict %s %s %s" % (pk.hex(), hx(m), sig.hex())))
+            out.append(("eds.verify:wrongmsg", "eds.verify %s %s %s" % (pk.hex(), hx(m + b"x"), sig.hex())))
+            out.append(("eds.verify:wrongkey", "eds.verify %s %s %s" % (ed_pub(r.bytes(32)).hex(), hx(m), sig.hex())))
+            out.append(("eds.batch:honest1", "eds.batch %s %s %s" % (hx(m) if m else "-", sig.hex(), pk.hex())) if m else ("eds.keygen", "eds.keygen " + sd.hex()))
+            for c in ctxs(r)[: sz(tier, 8, 8)]:
+                out.append(("eds.sign_ph:ctx%s" % ("none" if c is None else len(c)), "eds.sign_ph %s %s %s" % (sd.hex(), hx(m), ctxs_str(c))))
+                if c is not None:
+                    out.append(("eds.sign_ctx:ctx%d" % len(c), "eds.sign_ctx %s %s %s" % (sd.hex(), hx(m), ctxs_str(c))))
+                if c is None or len(c) <= 255:
+                    sg = ed_sign(sd, m, c if c is not None else b"")
+                    out.append(("eds.verify_ph:honest", "eds.verify_ph %s %s %s %s" % (pk.hex(), hx(m), ctxs_str(c), sg.hex())))
+                    out.append(("eds.verify_ph_strict:honest", "eds.verify_ph_strict %s %s %s %s" % (pk.hex(), hx(m), ctxs_str(c), sg.hex())))
+                    out.append(("eds.verify_ph:wrongctx", "eds.verify_ph %s %s %s %s" % (pk.hex(), hx(m), hx(b"other"), sg.hex())))
+                    out.append(("eds.verify:ph_sig_as_pure", "eds.verify %s %s %s" % (pk.hex(), hx(m), sg.hex())))
+    # hazmat raw_sign with mismatching vk etc.
+    for i in range(sz(tier, 10, 100)):
+        sd = r.bytes(32)
+        esk = sha512(sd)
+        m = r.bytes(r.below(50))
+        out.append(("eds.raw_sign", "eds.raw_sign %s %s %s" % (esk.hex(), hx(m), ed_pub(sd).hex())))
+        out.append(("eds.raw_sign:othervk", "eds.raw_sign %s %s %s" % (r.bytes(64).hex(), hx(m), ed_pub(sd).hex())))
+    return out
+
+
+def torsion_encodings():
+    """all eight torsion points in canonical and non-canonical encodings"""
+    out = []
+    for i, t in enumerate(T8):
+        out.append(("T%d" % i, compress(t)))
+        x, y = t
+        if y < 19:
+            out.append(("T%d:y+p" % i, tole((y + P) | ((x & 1) << 255))))
+        if x == 0:
+            out.append(("T%d:x0sign" % i, tole(y | (1 << 255))))
+            if y < 19:
+                out.append(("T%d:y+p,x0sign" % i, tole((y + P) | (1 << 255))))
+    return out
+
+
+def req_C09(r, tier):
+    out = []
+    tor = torsion_encodings()
+    seeds = [r.bytes(32) for _ in range(sz(tier, 6, 60))]
+    for sd in seeds:
+        a, _ = ed_expand(sd)
+        A = smul(a % L, B)
+        pk = compress(A)
+        m = r.bytes(r.below(80))
+        sig = ed_sign(sd, m)
+        Rb, S = sig[:32], le(sig[32:])
+        V = lambda lab, pkb, mb, sg: [("eds.verify:" + lab, "eds.verify %s %s %s" % (pkb.hex(), hx(mb), sg.hex())),
+                                      ("eds.verify_strict:" + lab, "eds.verify_strict %s %s %s" % (pkb.hex(), hx(mb), sg.hex()))]
+        out += V("honest", pk, m, sig)
+        # S variants
+        for lab, S2 in (("S+l", S + L), ("S+2l", S + 2 * L), ("S+8l", S + 8 * L), ("S=l-1", L - 1), ("S=l", L), ("S=0", 0), ("S|bit255", S | (1 << 255)),
+                        ("S|bit253", S | (1 << 253)), ("S=2^253-1", (1 << 253) - 1), ("S+15l", S + 15 * L)):
+            if S2 < (1 << 256):
+                out += V(lab, pk, m, Rb + tole(S2))
+        # corrupt each field
+        for lab, pos in (("flipR", r.below(32)), ("flipS", 32 + r.below(32))):
+            b = bytearray(sig); b[pos] ^= 1 << r.below(8)
+            out += V(lab, pk, m, bytes(b))
+        # R non-canonical / torsion tweaks: R' = R + T -> need S adjust? just send (expected reject unless equation holds)
+        Rp = decompress(Rb)
+        for lt, tb in tor:
+            T = decompress(tb)
+            out += V("R+T:" + lt, pk, m, compress(add(Rp, T)) + sig[32:])
+            # key with torsion component: A' = A + T ; craft signature valid for cofactored but maybe not cofactorless
+            Ap = compress(add(A, T))
+            out += V("A+T:" + lt, Ap, m, sig)
+            # small order key with S=0-style signatures:  R = T', A = T, S = 0 -> equation R = -kA
+            k = ed_challenge(tb, tb, m)
+            out += V("allsmall:" + lt, tb, m, tb + tole(0))
+            Rs = compress(neg(smul(k, T)))
+            out += V("smallA_fitR:" + lt, tb, m, Rs + tole(0))
+            k2 = ed_challenge(Rs, tb, m)
+            Rs2 = compress(neg(smul(k2, T)))
+            out += V("smallA_fitR2:" + lt, tb, m, Rs2 + tole(0))
+        # R = identity encodings with S = k*a
+        for lt, tb in tor[:3]:
+            k = ed_challenge(tb, pk, m)
+            out += V("R=small,S=ka:" + lt, pk, m, tb + tole(k * a % L))
+        # prehash variants
+        for c in (b"", b"ctx", bytes(255)):
+            sg = ed_sign(sd, m, c)
+            out.append(("eds.verify_ph:honest", "eds.verify_ph %s %s %s %s" % (pk.hex(), hx(m), hx(c), sg.hex())))
+            out.append(("eds.verify_ph_strict:honest", "eds.verify_ph_strict %s %s %s %s" % (pk.hex(), hx(m), hx(c), sg.hex())))
+            out.append(("eds.verify_ph:S+l", "eds.verify_ph %s %s %s %s" % (pk.hex(), hx(m), hx(c), (sg[:32] + tole(le(sg[32:]) + L)).hex())))
+            out.append(("eds.verify_ph:none_vs_empty", "eds.verify_ph %s %s ~ %s" % (pk.hex(), hx(m), sg.hex())))
+    # vk decoding
+    for lt, tb in tor:
+        out.append(("eds.vk:" + lt, "eds.vk " + tb.hex()))
+    for lab, b in bad_point_encodings(r, sz(tier, 10, 100)):
+        out.append(("eds.vk:offcurve", "eds.vk " + b.hex()))
+        out.append(("eds.verify:badkey", "eds.verify %s %s %s" % (b.hex(), "00", r.bytes(64).hex())))
+    for n in list(range(0, 70, 1 if tier != QUICK else 9)) + [64, 63, 65]:
+        out.append(("eds.sig:len%d" % n, "eds.sig " + hx(r.bytes(n))))
+    for i in range(sz(tier, 30, 500)):
+        out.append(("eds.verify:random", "eds.verify %s %s %s" % (ed_pub(r.bytes(32)).hex(), hx(r.bytes(10)), r.bytes(64).hex())))
+    return out
+
+
+# ------------------------------------------------------------------ C13 batch verification
+
+def honest_triples(r, n, msglen=20):
+    out = []
+    for _ in range(n):
+        sd = r.bytes(32)
+        m = r.bytes(1 + r.below(msglen))
+        out.append((sd, m, ed_sign(sd, m), ed_pub(sd)))
+    return out
+
+
+def batch_line(tr):
+    return "eds.batch %s %s %s" % (lst(hx(t[1]) for t in tr), lst(t[2].hex() for t in tr), lst(t[3].hex() for t in tr))
+
+
+def req_C13(r, tier):
+    out = []
+    base = honest_triples(r, sz(tier, 12, 40))
+    sizes = [0, 1, 2, 3, 7] + sz(tier, [64, 94, 95], [64, 94, 95, 96, 127, 128, 200])
+    for n in sizes:
+        tr = [r.choice(base) for _ in range(n)] if n > len(base) else list(base[:n])
+        out.append(("eds.batch:allvalid:n=%d" % n, batch_line(tr)))
+        if n >= 2:
+            # permutation, duplication, repetition
+            perm = list(tr); perm.reverse()
+            out.append(("eds.batch:permuted:n=%d" % n, batch_line(perm)))
+            out.append(("eds.batch:duplicated:n=%d" % n, batch_line(tr + [tr[0], tr[0]])))
+            out.append(("eds.batch:repeat:n=%d" % n, batch_line(tr)))
+        if n >= 1:
+            for what in ("msg", "R", "S", "key", "S+l", "Snoncanon", "Rundecodable", "swapkeys"):
+                tr2 = [list(t) for t in tr]
+                j = r.below(n)
+                sd, m, sig, pk = tr2[j]
+                if what == "msg":
+                    tr2[j][1] = m + b"!"
+                elif what == "R":
+                    other = r.choice(base)
+                    tr2[j][2] = other[2][:32] + sig[32:]
+                elif what == "S":
+                    tr2[j][2] = sig[:32] + tole((le(sig[32:]) + 1) % L)
+                elif what == "key":
+                    tr2[j][3] = ed_pub(r.bytes(32))
+                elif what == "S+l":
+                    tr2[j][2] = sig[:32] + tole(le(sig[32:]) + L)
+                elif what == "Snoncanon":
+                    tr2[j][2] = sig[:32] + tole(le(sig[32:]) | (1 << 255))
+                elif what == "Rundecodable":
+                    tr2[j][2] = bad_point_encodings(r, 1)[0][1] + sig[32:]
+                elif what == "swapkeys":
+                    if n < 2:
+                        continue
+                    k = (j + 1) % n
+                    tr2[j][3], tr2[k][3] = tr2[k][3], tr2[j][3]
+                    if tr2[j][3] == tr2[k][3]:
+                        continue
+                out.append(("eds.batch:corrupt_%s:n=%d" % (what, n), batch_line(tr2)))
+            # two independent faults
+            if n >= 3:
+                tr2 = [list(t) for t in tr]
+                tr2[0][1] = tr2[0][1] + b"?"
+                tr2[2][2] = tr2[2][2][:32] + tole((le(tr2[2][2][32:]) + 5) % L)
+                out.append(("eds.batch:two_faults:n=%d" % n, batch_line(tr2)))
+    # mismatched lengths
+    tr = base[:3]
+    out.append(("eds.batch:len_mismatch_msgs", "eds.batch %s %s %s" % (lst(hx(t[1]) for t in tr[:2]), lst(t[2].hex() for t in tr), lst(t[3].hex() for t in tr))))
+    out.append(("eds.batch:len_mismatch_sigs", "eds.batch %s %s %s" % (lst(hx(t[1]) for t in tr), lst(t[2].hex() for t in tr[:2]), lst(t[3].hex() for t in tr))))
+    out.append(("eds.batch:len_mismatch_keys", "eds.batch %s %s %s" % (lst(hx(t[1]) for t in tr), lst(t[2].hex() for t in tr), lst(t[3].hex() for t in tr[:1]))))
+    out.append(("eds.batch:len_mismatch_all_differ", "eds.batch %s %s %s" % (lst(hx(t[1]) for t in tr[:1]), lst(t[2].hex() for t in tr[:2]), lst(t[3].hex() for t in tr))))
+    # single verification of the same triples (agreement with individual verification)
+    for sd, m, sig, pk in base:
+        out.append(("eds.verify:single", "eds.verify %s %s %s" % (pk.hex(), hx(m), sig.hex())))
+    return out
+
+
+# ------------------------------------------------------------------ C16 serde
+
+def json_arr(bs):
+    return ("[" + ",".join(str(b) for b in bs) + "]").encode()
+
+
+def req_C16(r, tier):
+    out = []
+    n = sz(tier, 8, 80)
+    vals = {}
+    vals["scalar"] = [tole(0), tole(1), tole(L - 1)] + [tole(r.below(L)) for _ in range(n)]
+    pts = [b for _, b in point_pool(r, n) if True]
+    vals["edwards"] = [b for l_, b in point_pool(r, n) if not l_.startswith("noncanon")]
+    vals["cedwards"] = [r.bytes(32) for _ in range(n)] + vals["edwards"][:4]
+    vals["ristretto"] = [b for _, b in ris_pool(r, n)]
+    vals["cristretto"] = [r.bytes(32) for _ in range(n)] + vals["ristretto"][:4]
+    vals["montgomery"] = [r.bytes(32) for _ in range(n)]
+    vals["vk"] = [ed_pub(r.bytes(32)) for _ in range(n)]
+    vals["sk"] = [r.bytes(32) for _ in range(n)]
+    vals["sig"] = [ed_sign(r.bytes(32), b"m") for _ in range(n)] + [r.bytes(64) for _ in range(n)]
+    vals["xpub"] = [r.bytes(32) for _ in range(n)]
+    vals["xstatic"] = [r.bytes(32) for _ in range(n)] + [bytes([255]) * 32, bytes(32)]
+    invalid = {
+        "scalar": [tole(L), tole(L + 1), tole((1 << 256) - 1), tole(1 << 255), tole(2 * L - 1)],
+        "edwards": [b for _, b in bad_point_encodings(r, 6)],
+        "ristretto": [b for _, b in ris_bad_encodings(r, 3)],
+        "vk": [b for _, b in bad_point_encodings(r, 6)],
+    }
+    for fmt in ("bincode", "json"):
+        for ty, vs in vals.items():
+            for v in vs:
+                out.append(("serde.%s.ser.%s" % (fmt, ty), "serde.%s.ser.%s %s" % (fmt, ty, v.hex())))
+                # the canonical serialisation, deserialised
+                if fmt == "json":
+                    enc = json_arr(v)
+                    out.append(("serde.json.de.%s:valid" % ty, "serde.json.de.%s %s" % (ty, enc.hex())))
+                    # structural mutations
+                    out.append(("serde.json.de.%s:short" % ty, "serde.json.de.%s %s" % (ty, json_arr(v[:-1]).hex())))
+                    out.append(("serde.json.de.%s:long" % ty, "serde.json.de.%s %s" % (ty, json_arr(v + b"\x00").hex())))
+                    out.append(("serde.json.de.%s:long300" % ty, "serde.json.de.%s %s" % (ty, (json_arr(v)[:-1] + b",300]").hex())))
+                    out.append(("serde.json.de.%s:elem256" % ty, "serde.json.de.%s %s" % (ty, (b"[256," + json_arr(v[1:])[1:]).hex())))
+                    out.append(("serde.json.de.%s:neg" % ty, "serde.json.de.%s %s" % (ty, (b"[-1," + json_arr(v[1:])[1:]).hex())))
+                    out.append(("serde.json.de.%s:ws" % ty, "serde.json.de.%s %s" % (ty, (b" [ " + b" , ".join(str(b).encode() for b in v) + b" ] ").hex())))
+                    out.append(("serde.json.de.%s:str" % ty, "serde.json.de.%s %s" % (ty, (b'"' + v.hex().encode() + b'"').hex())))
+                    out.append(("serde.json.de.%s:trailing_comma" % ty, "serde.json.de.%s %s" % (ty, (json_arr(v)[:-1] + b",]").hex())))
+                    out.append(("serde.json.de.%s:garbage_after" % ty, "serde.json.de.%s %s" % (ty, (json_arr(v) + b"x").hex())))
+                else:
+                    # bincode: tuple types = raw bytes; bytes types = u64 length prefix
+                    raw = v
+                    pref = (len(v)).to_bytes(8, "little") + v
+                    for lab, enc in (("raw", raw), ("prefixed", pref), ("raw_short", raw[:-1]), ("raw_long", raw + b"\x00"), ("prefixed_short", pref[:-1]),
+                                     ("prefixed_long", pref + b"\x07"), ("prefix31", (31).to_bytes(8, "little") + v[:31]), ("prefix33", (33).to_bytes(8, "little") + v + b"\x01"),
+                                     ("hugeprefix", (1 << 62).to_bytes(8, "little") + v), ("empty", b"")):
+                        out.append(("serde.bincode.de.%s:%s" % (ty, lab), "serde.bincode.de.%s %s" % (ty, hx(enc))))
+        for ty, vs in invalid.items():
+            for v in vs:
+                if fmt == "json":
+                    out.append(("serde.json.de.%s:invalid_value" % ty, "serde.json.de.%s %s" % (ty, json_arr(v).hex())))
+                else:
+                    out.append(("serde.bincode.de.%s:invalid_value_raw" % ty, "serde.bincode.de.%s %s" % (ty, v.hex())))
+                    out.append(("serde.bincode.de.%s:invalid_value_prefixed" % ty, "serde.bincode.de.%s %s" % (ty, ((32).to_bytes(8, "little") + v).hex())))
+    return out
+
+
+# ------------------------------------------------------------------ C17 ff / group
+
+def req_C17(r, tier):
+    out = [("grp.consts", "grp.consts")]
+    pool = sc_pool(r, sz(tier, 30, 300))
+    for ls, s in pool:
+        out.append(("grp.from_repr:" + ls, "grp.from_repr " + H(s)))
+        out.append(("grp.from_repr_vt:" + ls, "grp.from_repr_vt " + H(s)))
+        out.append(("grp.invert:" + ls, "grp.invert " + H(s % L)))
+        out.append(("grp.sqrt:" + ls, "grp.sqrt " + H(s % L)))
+        sq = (s % L) * (s % L) % L
+        out.append(("grp.sqrt:square", "grp.sqrt " + H(sq)))
+        out.append(("grp.sqrt_ratio", "grp.sqrt_ratio %s %s" % (H(sq), H(r.choice(pool)[1] % L))))
+        out.append(("grp.sqrt_ratio:nonsq?", "grp.sqrt_ratio %s %s" % (H(s % L), H(r.choice(pool)[1] % L))))
+    out.append(("grp.sqrt_ratio:0/0", "grp.sqrt_ratio %s %s" % (H(0), H(0))))
+    out.append(("grp.sqrt_ratio:x/0", "grp.sqrt_ratio %s %s" % (H(5), H(0))))
+    for i in range(sz(tier, 20, 300)):
+        out.append(("grp.from_uniform", "grp.from_uniform " + r.bytes(64).hex()))
+    pts = point_pool(r, sz(tier, 20, 200))
+    for lab, b in pts + bad_point_encodings(r, sz(tier, 10, 100)):
+        out.append(("grp.ed_from_bytes:" + lab, "grp.ed_from_bytes " + b.hex()))
+        out.append(("grp.ed_from_bytes_unchecked", "grp.ed_from_bytes_unchecked " + b.hex()))
+        out.append(("grp.sub_from_bytes:" + lab, "grp.sub_from_bytes " + b.hex()))
+        out.append(("grp.ris_from_bytes", "grp.ris_from_bytes " + b.hex()))
+    for lab, b in pts:
+        if decompress(b) is None:
+            continue
+        out.append(("grp.into_subgroup:" + lab, "grp.into_subgroup " + b.hex()))
+        out.append(("grp.clear_cofactor:" + lab, "grp.clear_cofactor " + b.hex()))
+        out.append(("grp.is_torsion_free:" + lab, "grp.is_torsion_free " + b.hex()))
+    for lab, b in ris_pool(r, 6) + ris_bad_encodings(r, 3):
+        out.append(("grp.ris_from_bytes:" + lab, "grp.ris_from_bytes " + b.hex()))
+    return out
+
+
+# ------------------------------------------------------------------ C15 untrusted input (run on the `checked` profile: a panic shows as `panic`)
+
+def req_C15(r, tier):
+    out = []
+    # every decoder on every length
+    for n in range(0, 97):
+        b = r.bytes(n)
+        for op in ("ed.from_slice", "ris.from_slice", "eds.sig"):
+            out.append(("%s:len%d" % (op, n), "%s %s" % (op, hx(b))))
+    # 32-byte decoders on class-directed strings
+    specials = [0, 1, 2, P - 1, P, P + 1, M255, 1 << 255, (1 << 256) - 1, SQRT_M1, P - SQRT_M1, L, L - 1, (1 << 255) | 1, (P - 1) | (1 << 255), 19, (1 << 255) - 20]
+    strs = [tole(v) for v in specials] + [r.bytes(32) for _ in range(sz(tier, 60, 1500))]
+    for b in strs:
+        h = b.hex()
+        for op in ("ed.decompress", "ris.decompress", "sc.canonical", "sc.reduce", "eds.vk", "eds.vk_to_montgomery", "x.pubkey_bytes", "grp.ed_from_bytes", "grp.sub_from_bytes",
+                   "grp.ris_from_bytes", "grp.from_repr", "eds.keygen", "sc.clamp", "mont.elligator", "ris.elligator", "fe.roundtrip", "fe.invert", "fe.invsqrt"):
+            out.append((op, "%s %s" % (op, h)))
+        out.append(("mont.to_edwards", "mont.to_edwards %s %d" % (h, r.below(2))))
+        out.append(("x.x25519", "x.x25519 %s %s" % (r.bytes(32).hex(), h)))
+        out.append(("x.x25519:k", "x.x25519 %s %s" % (h, r.bytes(32).hex())))
+        out.append(("x.static", "x.static %s %s" % (r.bytes(32).hex(), h)))
+        out.append(("mont.mul", "mont.mul %s %s" % (h, r.bytes(32).hex())))
+        out.append(("eds.verify", "eds.verify %s %s %s" % (h, hx(r.bytes(r.below(40))), r.bytes(64).hex())))
+        out.append(("eds.verify_strict", "eds.verify_strict %s %s %s" % (h, hx(r.bytes(r.below(40))), r.bytes(64).hex())))
+        out.append(("eds.verify:badsig", "eds.verify %s %s %s" % (ed_pub(bytes(32)).hex(), "-", (b + r.bytes(32)).hex())))
+        out.append(("eds.verify_strict:badsig", "eds.verify_strict %s %s %s" % (ed_pub(bytes(32)).hex(), "-", (r.bytes(32) + b).hex())))
+        for c in (b"", bytes(255)):
+            out.append(("eds.verify_ph", "eds.verify_ph %s %s %s %s" % (h, "00", hx(c), r.bytes(64).hex())))
+            out.append(("eds.verify_ph_strict", "eds.verify_ph_strict %s %s %s %s" % (ed_pub(bytes(32)).hex(), "00", hx(c), (b + r.bytes(32)).hex())))
+    for v in specials:
+        out.append(("fe.sqrt_ratio_i", "fe.sqrt_ratio_i %s %s" % (H(v), H(r.choice(specials)))))
+    for i in range(sz(tier, 40, 600)):
+        out.append(("ris.from_uniform", "ris.from_uniform " + r.bytes(64).hex()))
+        out.append(("sc.reduce_wide", "sc.reduce_wide " + r.bytes(64).hex()))
+        out.append(("ed.nonspec_map", "ed.nonspec_map " + hx(r.bytes(r.below(80)))))
+        out.append(("sc.from_hash", "sc.from_hash " + hx(r.bytes(r.below(80)))))
+        out.append(("ris.from_hash", "ris.from_hash " + hx(r.bytes(r.below(80)))))
+        out.append(("eds.from_keypair", "eds.from_keypair " + r.bytes(64).hex()))
+    # elligator special r: 1 + 2r^2 = 0 has no solution; r with d*r^2 = ... ; r = 0, ±1, sqrt(-1/2)?  (non-residue) ...
+    for v in (0, 1, P - 1, SQRT_M1, inv(2), (P - 1) // 2, sqrt(inv(2) % P) or 3):
+        out.append(("mont.elligator:special", "mont.elligator " + H(v)))
+        out.append(("ris.elligator:special", "ris.elligator " + H(v)))
+    # malformed batches
+    tr = honest_triples(r, 4)
+    out.append(("eds.batch:len_mismatch", "eds.batch %s %s %s" % (lst(hx(t[1]) for t in tr[:2]), lst(t[2].hex() for t in tr), lst(t[3].hex() for t in tr[:3]))))
+    out.append(("eds.batch:empty", "eds.batch - - -"))
+    out.append(("eds.batch:garbage", "eds.batch %s %s %s" % (lst(hx(t[1]) for t in tr), lst(r.bytes(64).hex() for t in tr), lst(t[3].hex() for t in tr))))
+    out.append(("eds.batch:Snoncanon", "eds.batch %s %s %s" % (lst(hx(t[1]) for t in tr), lst((t[2][:32] + tole((1 << 256) - 1)).hex() for t in tr), lst(t[3].hex() for t in tr))))
+    # over-long prehash contexts on the VERIFY side (signing refuses them)
+    sd = r.bytes(32)
+    for n in (256, 300):
+        sg = ed_sign(sd, b"m", b"")
+        out.append(("eds.verify_ph:ctx%d" % n, "eds.verify_ph %s %s %s %s" % (ed_pub(sd).hex(), "6d", hx(bytes(n)), sg.hex())))
+        out.append(("eds.verify_ph_strict:ctx%d" % n, "eds.verify_ph_strict %s %s %s %s" % (ed_pub(sd).hex(), "6d", hx(bytes(n)), sg.hex())))
+        out.append(("eds.sign_ph:ctx%d" % n, "eds.sign_ph %s %s %s" % (sd.hex(), "6d", hx(bytes(n)))))
+    return out
